@@ -624,11 +624,29 @@ ChainObs(c, lv) ==
 IsStdoutKind(k) == k \in {"DisplayHelp", "DisplayVersion"}
 ErrObs(kind) == [outcome |-> "Err", kind |-> kind, stderr |-> ~IsStdoutKind(kind), exit |-> IF IsStdoutKind(kind) THEN 0 ELSE 2, chain |-> <<>>]
 
-\* try_get_matches_from (bin name stripped by the caller: argv excludes argv[0]) + _do_parse
-RunTop(def, argv) == RunLevel(Build(def, NoInherit), argv, 1, 0, -1, 0)
-Run(def, argv) ==
+\* ---- Command::try_get_matches_from_mut: what becomes of argv[0] ---------------------------------
+\* Path::file_stem on bytes, for the shapes the families use (no `.`/`..` components): the last component
+\* (trailing slashes dropped) up to its last dot, unless that dot is its first byte
+LastIdxOf(b, x) == IF \E i \in 1..Len(b) : b[i] = x THEN CHOOSE i \in 1..Len(b) : b[i] = x /\ \A j \in (i + 1)..Len(b) : b[j] # x ELSE 0
+RECURSIVE DropTrailingSlashes(_)
+DropTrailingSlashes(b) == IF b # <<>> /\ b[Len(b)] = 47 THEN DropTrailingSlashes(SubSeq(b, 1, Len(b) - 1)) ELSE b
+FileName(b) == LET t == DropTrailingSlashes(b) IN SubSeq(t, LastIdxOf(t, 47) + 1, Len(t))
+FileStem(b) == LET n == FileName(b) d == LastIdxOf(n, 46) IN IF d > 1 THEN SubSeq(n, 1, d - 1) ELSE n
+\* The harness passes argv[0] = the command's name unless the definition says no_binary_name or multicall; the
+\* specification's argv is what follows it.  With no_binary_name nothing is stripped; with multicall argv[1] is the
+\* path the program was called by and its file stem is re-inserted as the first word.
+\* DevMulticallArgv0Fallback: when that path has no UTF-8 file stem the already consumed argv[0] is forgotten and the
+\* ordinary binary-name step consumes the *next* word too.
+EffArgv(def, argv) ==
+  IF ~def.s.multicall \/ argv = <<>> THEN argv
+  ELSE LET stem == FileStem(argv[1]) IN
+       IF stem # <<>> /\ IsUtf8(stem) THEN <<stem>> \o Tail(argv)
+       ELSE IF Len(argv) >= 2 THEN Tail(Tail(argv)) ELSE <<>>
+\* try_get_matches_from + _do_parse
+RunTop(def, argv0) == RunLevel(Build(def, NoInherit), EffArgv(def, argv0), 1, 0, -1, 0)
+Run(def, argv0) ==
   LET c == Build(def, NoInherit)
-      top == RunTop(def, argv)
+      top == RunTop(def, argv0)
   IN IF top.panic THEN [outcome |-> "Panic", kind |-> "", stderr |-> FALSE, exit |-> 0, chain |-> <<>>, site |-> top.kind]
      ELSE IF top.err /\ ~(Set(c, "ignore_errors") /\ ~IsStdoutKind(top.kind)) THEN ErrObs(top.kind) @@ [site |-> ""]
      ELSE LET g == FillGlobals(top, UsedGlobals(c, top), <<>>)[1]
